@@ -37,7 +37,7 @@ def local_peak_indices(values):
     return starts[keep]
 
 
-def switched(values):
+def switched(values, with_free=False):
     """(indices, tie): canonical switched peaks (for each excursion the first index of its largest |value|, plus every reported
     local peak whose value is 0) and whether some excursion attains its largest |value| more than once."""
     a = np.asarray(values, dtype=float)
@@ -55,7 +55,17 @@ def switched(values):
     lp = local_peak_indices(a)
     zero_tp = lp[a[lp] == 0]
     idx = np.union1d(first[exc], zero_tp).astype(np.int64)
-    return idx, bool(np.any(count[exc] > 1))
+    tied = exc & (count > 1)
+    if with_free:
+        # samples at which the statement leaves a cumulative series open: from the first to just before the last index at which
+        # a tied excursion attains its largest |value| (any of them may be the reported one)
+        free = np.zeros(n, dtype=bool)
+        if np.any(tied):
+            last = np.maximum.reduceat(np.where(at_max, np.arange(n), -1), rs)
+            for f_, l_ in zip(first[tied], last[tied]):
+                free[f_:l_] = True
+        return idx, bool(np.any(tied)), free
+    return idx, bool(np.any(tied))
 
 
 def switched_peaks(values):
@@ -99,6 +109,15 @@ def _self_check():
             raise core.HarnessError("peaks_fast.local_peak_indices disagrees with the loop reference on %r: %r vs %r" % (
                 s, lp, loop.local_peak_indices(s)))
         sw, tie = switched(s)
+        sw3, tie3, free = switched(s, with_free=True)
+        want_free = [False] * len(s)
+        for (e0, e1, _sg) in loop.excursions(s):
+            m = max(abs(v) for v in s[e0:e1])
+            at = [i for i in range(e0, e1) if abs(s[i]) == m]
+            for i in range(at[0], at[-1]):
+                want_free[i] = True
+        if list(free) != want_free or list(sw3) != list(sw) or tie3 != tie:
+            raise core.HarnessError("peaks_fast.switched(with_free) disagrees with the loop reference on %r" % (s,))
         if [int(i) for i in sw] != loop.switched_peaks(s) or tie != loop.switched_freedom(s)[0]:
             raise core.HarnessError("peaks_fast.switched disagrees with the loop reference on %r: %r/%r vs %r/%r" % (
                 s, list(sw), tie, loop.switched_peaks(s), loop.switched_freedom(s)[0]))
